@@ -362,7 +362,9 @@ def craft(rng, t, n):
       if m == 'eq':
         sb.append([fs(cs[i]), fs(cs[i])])
       else:
-        a, b = rng.choice([(0, 1), (1, 0), (Fraction(1, 4), 3), (2, 2), (3, Fraction(1, 4)), (0, Fraction(1, 4)), (Fraction(1, 2), 0)])
+        # the last two bands are narrow (width 2^-20, 2^-19) but NOT degenerate: low < high is an inequality band, however close the limits are
+        a, b = rng.choice([(0, 1), (1, 0), (Fraction(1, 4), 3), (2, 2), (3, Fraction(1, 4)), (0, Fraction(1, 4)), (Fraction(1, 2), 0),
+                           (Fraction(1, 2**21), Fraction(1, 2**21)), (Fraction(1, 2**20), Fraction(1, 2**20))])
         sb.append([fs(cs[i] - a), fs(cs[i] + b)])
     s['sb'] = sb
   return S
